@@ -376,8 +376,8 @@ Proof.
   intros Hwf. pose proof Hwf as (p0 & ps & Hp & Hs & Hinc & Hlast).
   set (ls := lines_of (rbuf r) (rseqpos r)).
   assert (Hlen : length ls = length (rseqpos r) - 1) by apply lines_of_length.
-  destruct (fa_seq_lines r) as [s|] eqn:Es;
-    [| unfold fa_seq_lines in Es; rewrite Hp in Es; discriminate].
+  (* seq_lines() never panics (Model/Views.v) *)
+  destruct (fa_seq_lines r) as [s|] eqn:Es; [| unfold fa_seq_lines in Es; discriminate].
   destruct (sl_init_inv r s Es) as (Hi & Hr & Ht).
   set (f := fun i => nth i ls []).
   assert (Hl : forall i, In i (sl_todo s) -> sl_line (sl_rec s) i = SlItem (f i)).
